@@ -64,8 +64,15 @@ pub fn worker_main(a: WorkerArgs) -> i32 {
             return 4;
         }
         Err(p) => {
-            eprintln!("HARNESS-PANIC (outside guarded call) at {} ({})", p.loc, p.msg);
-            return 3;
+            if p.in_harness() {
+                eprintln!("HARNESS-PANIC (outside guarded call) at {} ({})", p.loc, p.msg);
+                return 3;
+            }
+            // the crate under test panicked in a call the monitor had not wrapped: the call did not
+            // return the value the property requires. The rest of this shard's workload is lost
+            // (floors may then be missed as well); the violation stands.
+            let sig = p.sig();
+            ctx.violation(sig, serde_json::json!({"what": "panic inside the crate under test during this case (unwrapped call)", "panic_at": p.loc, "panic_msg": p.msg}));
         }
     }
     let js = ctx.to_json();
